@@ -552,7 +552,7 @@ func init() {
 	core.Register(&core.Prop{
 		ID:    "C15",
 		Level: "exploration",
-		Rule:  "jobs = 19 (schema, input, externals) triples covering all seven formats, templates, xpath_dynamic, javascript(_with_context), copy, uuidv3, date-time functions, XML namespaces incl. one URI bound twice, typed external properties (one schema text, three property sets), dotted sibling object keys failing together, a script that throws while holding arguments and one that looks for globals it was not given, the same schema under the built-in extension and under a caller's extension that overrides 'upper'; histories are run both with every job parsing its schema anew and with jobs of equal schema text sharing ONE Schema object; every history of up to 2 (thorough 3) earlier jobs followed by a probe job is run in one process (pools and caches warm, ID counter advanced; state reset only between histories) and the probe's full transcript (bytes, checksums, raw records, errors) must equal the transcript of the same job in a FRESH process (3 fresh subprocesses per job, which must also agree with each other); no emitted record may contain a UUID-shaped string that is not in the input (declaration hashes are UUIDs); checksums: every pair from a per-format record alphabet (equal content, one value changed, shape changed) must have equal checksums iff the records are equal; the same long inputs of multi-line records (5 items) handed over at once and in pieces of 1000 / 100 / 7 bytes give the same transcript; every XML record of up to 5 (thorough 6) elements over two names and three texts (no attributes, no mixed content), all in one document: records of different content (up to the order of differently named siblings) never share a checksum; distinct by (history, probe) / (format, record pair)",
+		Rule:  "jobs = 19 (schema, input, externals) triples covering all seven formats, templates, xpath_dynamic, javascript(_with_context), copy, uuidv3, date-time functions, XML namespaces incl. one URI bound twice, typed external properties (one schema text, three property sets), dotted sibling object keys failing together, a script that throws while holding arguments and one that looks for globals it was not given, the same schema under the built-in extension and under a caller's extension that overrides 'upper'; histories are run both with every job parsing its schema anew and with jobs of equal schema text sharing ONE Schema object; every history of up to 2 (thorough 3) earlier jobs followed by a probe job is run in one process (pools and caches warm, ID counter advanced; state reset only between histories) and the probe's full transcript (bytes, checksums, raw records, errors) must equal the transcript of the same job in a FRESH process (3 fresh subprocesses per job, which must also agree with each other); no emitted record may contain a UUID-shaped string that is not in the input (declaration hashes are UUIDs); checksums: every pair from a per-format record alphabet (equal content, one value changed, shape changed) must have equal checksums iff the records are equal; the same long inputs of multi-line records (5 items) handed over at once and in pieces of 1000 / 100 / 7 bytes give the same transcript; every XML record of up to 5 (thorough 6) elements over two names and three texts (no attributes, no mixed content), all in one document: records of different content (up to the order of differently named siblings) never share a checksum; distinct by (history, probe) / (format, record pair); further jobs: scripts with top-level declarations, scripts changing the global object / builtin objects (known finding), script enumerating an object argument, union xpath in an array, data-driven call depth",
 		Assumptions: []string{
 			"Go map iteration order cannot be enumerated: order dependence is exposed only through repetition (every probe runs at least 100 times across histories), which is stated here rather than claimed exhaustive",
 			"the `now` function and scripts drawing randomness are excluded by the property",
